@@ -371,7 +371,7 @@ def _evidence(ctx, stages, recs_ops, recs_resp, recs_req, recs_enc):
         "fields derived by the HTTP stack from the raw payload itself are admitted when truthful (AsImplemented_StackHeaders / "
         "AsImplemented_StackReqHeaders: Content-Length, sniffed Content-Type, Date, Trailer announcement, Go's default User-Agent)",
         "query parameters are compared per name in the order inline, raw, encoded (AsImplemented_QueryOrder)",
-        "a compressed empty payload may have no bytes (AsImplemented_EmptyCompressed; decided by C20)",
+        "a compressed empty payload may have no bytes exactly under the formats whose stock decoder reads no bytes as the empty payload (AsImplemented_EmptyCompressed; the Go side reports those formats)",
         "definitions HTTP itself cannot carry are outside the domain: bodies with 1xx/204/304, Content-Length that contradicts "
         "the body, names the stack refuses as trailers",
         "the header that earlier middleware puts on the writer before the handler runs is Vary: Origin (rs/cors)",
